@@ -8,7 +8,7 @@ use bytes::{BufMut, Bytes};
 use qbase::{
     error::ErrorKind,
     frame::{DatagramFrame, EncodeSize, Frame, FrameReader, io::ReceiveFrame},
-    net::tx::ArcSendWakers,
+    net::tx::{ArcSendWaker, ArcSendWakers, Signals},
     packet::r#type::{Type, short::OneRtt},
     varint::VarInt,
 };
@@ -72,6 +72,12 @@ struct Side {
     held: Vec<Bytes>,
     dead: bool,
     next_id: u64,
+    /// the path's send task as `Path::burst` runs it: when the sources have nothing it sleeps on the signals they
+    /// reported (`tx_waker.wait_for(signals)`), registered in the connection's `ArcSendWakers`
+    tx_waker: ArcSendWaker,
+    stask: Task,
+    /// the send task is asleep on these signals (reported by the empty datagram source)
+    parked: Option<Signals>,
 }
 
 fn conn_error() -> qbase::error::Error {
@@ -82,7 +88,12 @@ pub fn run(case: &DCase) -> Outcome {
     let mut out = Outcome::default();
     let mut th = TraceHash::default();
     let mk = |i: usize, out: &mut Outcome| {
-        let flow = DatagramFlow::new(case.max[i], ArcSendWakers::default());
+        let wakers = ArcSendWakers::default();
+        let tx_waker = ArcSendWaker::new();
+        let a: std::net::SocketAddr = "127.0.0.1:1".parse().unwrap();
+        let b: std::net::SocketAddr = "127.0.0.1:2".parse().unwrap();
+        wakers.insert(qbase::net::route::Pathway::new(a.into(), b.into()), &tx_waker);
+        let flow = DatagramFlow::new(case.max[i], wakers);
         let peer_max = case.max[1 - i];
         let writer = match flow.writer(peer_max) {
             Ok(w) => {
@@ -107,7 +118,7 @@ pub fn run(case: &DCase) -> Outcome {
                 None
             }
         };
-        Side { flow, writer, reader, rtask: Task::new(), reader_pending: false, queued: VecDeque::new(), arrived: VecDeque::new(), held: Vec::new(), dead: false, next_id: 0 }
+        Side { flow, writer, reader, rtask: Task::new(), reader_pending: false, queued: VecDeque::new(), arrived: VecDeque::new(), held: Vec::new(), dead: false, next_id: 0, tx_waker, stask: Task::new(), parked: None }
     };
     let mut s = [mk(0, &mut out), mk(1, &mut out)];
 
@@ -152,6 +163,17 @@ pub fn run(case: &DCase) -> Outcome {
                         }
                         s[i].queued.push_back(data);
                         out.stats.bump("op.send_accepted");
+                        // the send task asleep on what the empty source reported must now be woken, or the accepted
+                        // datagram sits in the queue until some unrelated event happens to wake the path
+                        if let Some(sig) = s[i].parked.take() {
+                            if !s[i].stask.take_woken() {
+                                let mut fut = Box::pin(s[i].tx_waker.wait_for(sig));
+                                let ready = s[i].stask.poll_pin(fut.as_mut()).is_ready();
+                                out.violate("not-on-wire", "sender-not-woken", format!("side {i}: the send task slept on {sig:?} (reported by the empty datagram source); accepting a datagram did not wake it (a re-poll now finds the condition {})", if ready { "satisfied" } else { "still unsatisfied" }), at);
+                            } else {
+                                out.stats.bump("probe.parked_sender_woken_by_send");
+                            }
+                        }
                     }
                     (false, false) => {
                         if fits {
@@ -206,7 +228,16 @@ pub fn run(case: &DCase) -> Outcome {
                             loaded.push(exp);
                             out.stats.bump("op.loaded");
                         }
-                        Err(_) => {
+                        Err(sig) => {
+                            if front_len.is_none() && !s[i].dead && round == 0 && pre == 0 && s[i].parked.is_none() && !sig.is_empty() {
+                                // nothing to send at all: the path's send task goes to sleep on the reported signals
+                                let mut fut = Box::pin(s[i].tx_waker.wait_for(sig));
+                                s[i].stask.take_woken();
+                                if s[i].stask.poll_pin(fut.as_mut()).is_pending() {
+                                    s[i].parked = Some(sig);
+                                    out.stats.bump("probe.send_task_parked_on_empty_source");
+                                }
+                            }
                             if let (Some(l), false) = (front_len, s[i].dead) {
                                 // 1 type byte + at most 8 bytes of length: in that much room every encoding fits
                                 if left >= 1 + 8 + l {
